@@ -34,6 +34,8 @@ CLAIMED = {
          "static analysis: path-sensitive lockset / critical-section typestate over go/ssa", "DESIGN.md §5 C13"),
  "C14": ("Sound static decision that each direct method's map-effect summary equals its map operation (Set/Get/Has/Delete/Len/Clear/Merge/Keys/GetAll), that the map field only ever holds maps made by the store itself, and that snapshots are containers made in the call and not retained; by induction over operation sequences the store equals the model map.",
          "static analysis: per-method map-effect summaries compared with a specification table", "DESIGN.md §5 C14"),
+ "C15": ("Sound static decision of totality (no instruction of a non-Must accessor can panic; reflect preconditions implied on every path) and of faithfulness: each accessor's extracted decision table equals the documented one for every case (absent key, nil, the 12 numeric kinds, string, bool, []any, map[string]any, other slice kinds, other types), with Go's conversion of the asserted value as result and the variant's default/zero/panic otherwise; ToSlice summary as documented. Numeric results of Go's conversions are the specification.",
+         "static analysis: may-panic scan + path-sensitive reflect-precondition check + decision-table extraction vs. specification table", "DESIGN.md §5 C15"),
  "C18": ("Sound static decision that every nil-error return of Run (single, batch, empty batch) carries a provably non-empty action.",
          "static analysis: path-sensitive return-predicate analysis over go/ssa", "DESIGN.md §5 C18"),
  "C20": ("Sound static decision of the structural cause of the timing statement: a wait event with the node's GetWait() duration lies exactly between a failed attempt and the next (unless wait<=0 is established), none before the first or after the last attempt, every wait selects on ctx.Done(), no time.Sleep. Elapsed time itself is the time package's contract.",
